@@ -38,6 +38,7 @@ M = [
  ("hist_centers_geometric", "src/traits.rs", "self.histogram_iter.next().map(|((a, b), _)| 0.5 * (a + b))", "self.histogram_iter.next().map(|((a, b), _)| a + 0.5 * (b - a))", ["C13"]),
  ("serde_skip_sum2", "src/moments/variance.rs", "    /// Intermediate sum of squares for calculating the variance.\n    sum_2: f64,", "    /// Intermediate sum of squares for calculating the variance.\n    #[cfg_attr(feature = \"serde\", serde(skip))]\n    sum_2: f64,", ["C18"]),
  ("serde_quantile_dm_skip", "src/quantile.rs", "    /// Increment in desired marker positions.\n    dm: [f64; 5],", "    /// Increment in desired marker positions.\n    #[cfg_attr(feature = \"serde\", serde(skip_deserializing))]\n    dm: [f64; 5],", ["C18"]),
+ ("serde_mean_n_skipped_when_zero", "src/moments/mean.rs", "    /// Sample size.\n    n: u64,", "    /// Sample size.\n    #[cfg_attr(feature = \"serde\", serde(default, skip_serializing_if = \"num_traits::Zero::is_zero\"))]\n    n: u64,", ["C18"]),
  ("extend_ref_skips_first", "src/macros.rs", "                T: IntoIterator<Item = &'a f64>,\n            {\n                for &i in iter {\n                    self.add(i);\n                }\n            }", "                T: IntoIterator<Item = &'a f64>,\n            {\n                for &i in iter.into_iter().skip(1) {\n                    self.add(i);\n                }\n            }", ["C20"]),
  ("wm_sumsq_plus_weight", "src/weighted_mean.rs", "self.weight_sum_sq += weight * weight;", "self.weight_sum_sq += weight;", ["C08"]),
  ("wm_merge_sumsq_dropped_when_empty", "src/weighted_mean.rs", "        self.weight_sum_sq += other.weight_sum_sq;\n        self.weighted_avg.merge", "        if !self.is_empty() { self.weight_sum_sq += other.weight_sum_sq; }\n        self.weighted_avg.merge", ["C08", "C11"]),
@@ -121,6 +122,11 @@ def main():
             open(path, "w").write(src)
         rows.append(row)
     os.makedirs("/verif/seeded", exist_ok=True)
+    outp = "/verif/seeded/equivalent-matrix.json" if mode == "equiv" else "/verif/seeded/own-matrix.json"
+    if flt and os.path.exists(outp):
+        # a filtered run replaces / adds its rows in the existing matrix
+        old = json.load(open(outp)); names = {r["mutant"] for r in rows}
+        rows = [r for r in old["rows"] if r["mutant"] not in names] + rows
     json.dump({"scale": scale, "rows": rows}, open("/verif/seeded/equivalent-matrix.json" if mode == "equiv" else "/verif/seeded/own-matrix.json", "w"), indent=1)
     sh(f"git -C /repo worktree remove --force {REPO}")
     shutil.rmtree(MX, ignore_errors=True)
